@@ -305,6 +305,10 @@ type CmpOpts struct {
 	// FlatVal compares the flat rendering of the value (parsers built with -optimize-grammar may
 	// regroup action-less structure; the concatenated text and what actions made must not change)
 	FlatVal bool
+	// SkipInnerSeq: do not compare WHICH invocation of a block made a retained error (only where
+	// the number of invocations legitimately differs from the reference's: leader results kept in
+	// the rule table, C08)
+	SkipInnerSeq bool
 }
 
 // Compare returns the differences between the reference expectation and
@@ -392,7 +396,7 @@ func Compare(ref *peg.Result, obs *rtapi.Obs, pt *peg.PosTable, filename string,
 			diffs = append(diffs, fmt.Sprintf("errors: want %q got %q", want, got))
 		} else {
 			for i := range want {
-				if wantSeq[i] != gotSeq[i] {
+				if wantSeq[i] != gotSeq[i] && !co.SkipInnerSeq {
 					diffs = append(diffs, fmt.Sprintf("error %d: Inner is not the original error (want seq %d got %d)", i, wantSeq[i], gotSeq[i]))
 				}
 			}
